@@ -69,17 +69,26 @@ theorem options_grammar (toks : List Bytes) (o o' : SortOpts) :
   parse_iff toks o o'
 
 /-- what each option does: the last of ASC/DESC wins, ALPHA is sticky, the last LIMIT / STORE / BY wins, GET patterns
-accumulate in order; `BY pat` switches sorting off iff `pat` contains no `*` (and a later `BY` with `*` does NOT switch
-it on again) -/
+accumulate in order; `BY pat` switches sorting off iff `pat` contains no `*` (nothing of an earlier BY survives, see
+`last_by_decides`) -/
 theorem option_effects (o : SortOpts) :
     Opt.apply o .asc = { o with desc := false } ∧ Opt.apply o .desc = { o with desc := true } ∧
     Opt.apply o .alpha = { o with alpha := true } ∧
     (∀ s c, Opt.apply o (.limit s c) = { o with limitStart := s, limitCount := c }) ∧
     (∀ x, Opt.apply o (.store x) = { o with store := some x }) ∧
     (∀ x, Opt.apply o (.sortBy x) =
-      { o with sortby := some x, dontsort := if x.contains 42 then o.dontsort else true }) ∧
+      { o with sortby := some x, dontsort := !x.contains 42 }) ∧
     (∀ x, Opt.apply o (.get x) = { o with gets := o.gets ++ [x] }) :=
   ⟨rfl, rfl, rfl, fun _ _ => rfl, fun _ => rfl, fun _ => rfl, fun _ => rfl⟩
+
+/-- THE LAST BY DECIDES: if `BY x` is followed by no other BY, the pattern is `x` and sorting is switched off iff `x`
+contains no `*`, whatever came before; without any BY the defaults stay (sort by the elements themselves). -/
+theorem last_by_decides (pre rest : List Opt) (x : Bytes) (h : ∀ op ∈ rest, op.isBy = false) (o : SortOpts) :
+    ((pre ++ .sortBy x :: rest).foldl Opt.apply o).sortby = some x ∧
+    ((pre ++ .sortBy x :: rest).foldl Opt.apply o).dontsort = (!x.contains 42) ∧
+    (∀ opts : List Opt, (∀ op ∈ opts, op.isBy = false) →
+      (opts.foldl Opt.apply o).sortby = o.sortby ∧ (opts.foldl Opt.apply o).dontsort = o.dontsort) :=
+  ⟨(last_by pre rest x h o).1, (last_by pre rest x h o).2, fun opts ho => foldl_noBy opts ho o⟩
 
 /-- every other token list is `ERR syntax error` -/
 theorem options_error (toks : List Bytes) (o : SortOpts) (e : Err) (h : parseSortOpts toks o = .error e) :
@@ -246,14 +255,14 @@ theorem limit_cases (o : SortOpts) (sorted : List Bytes) :
 
 /-! ## 4. BY -/
 
-/-- BY with a pattern WITHOUT `*` ("nosort"): no sorting and no weight look-up.  A SET keeps the (hinted) iteration
-order; a LIST is REVERSED and a SORTED SET comes in DESCENDING `(score, member)` order — in both cases whether ASC or
-DESC was given.  (Candidate divergence from Redis, see `nosort_list_is_reversed` / `nosort_zset_is_descending`.) -/
+/-- BY with a pattern WITHOUT `*` ("nosort"): no sorting and no weight look-up.  A LIST keeps its list order and a
+SORTED SET its ascending `(score, member)` order; both are reversed exactly when DESC is given.  A SET keeps the
+(hinted) iteration order, with or without DESC.  LIMIT then applies to this sequence (see `phases`). -/
 theorem by_nosort (live : Bytes → Option Item) (val : Option Value) (o : SortOpts) (items : List Bytes)
     (hd : o.dontsort = true) :
     sortedLive live val o items =
       .ok (match val with
-        | some (.list _) | some (.zset _) => items.reverse
+        | some (.list _) | some (.zset _) => if o.desc then items.reverse else items
         | _ => items) :=
   sortedLive_nosort hd
 
@@ -445,32 +454,47 @@ theorem missing_source (live : Bytes → Option Item) (o : SortOpts) (db : Db) (
 theorem signature : SigTable.find "sort" = some ssig ∧ Cmd.regular "sort" = none := by
   decide +kernel
 
-/-! ## Results: candidate divergences from Redis 6.2 / 7.0 (true of the model AND of fakeredis' code) -/
+/-! ## Results: the three former divergences from Redis 6.2 / 7.0, now positive statements -/
 
 def bs (s : String) : Bytes := strBytes s
 
-/-- `RPUSH l a b c`, `SORT l BY nosort` replies `c b a` (Redis: `a b c`; `c b a` only with DESC) -/
-theorem nosort_list_is_reversed :
-    (parseSortOpts [bs "BY", bs "nosort"] {}).toOption.map
-      (fun o => (specLive (fun _ => none) (some (.list [bs "a", bs "b", bs "c"])) o [bs "a", bs "b", bs "c"]).toOption) =
-    some (some [some (bs "c"), some (bs "b"), some (bs "a")]) := by
-  decide +kernel
+/-- the outcome of `SORT key opts…` when `key` holds `val` with elements `items` and no other key exists -/
+def runOn (val : Value) (items : List Bytes) (opts : List String) : Option (Option (List (Option Bytes))) :=
+  (parseSortOpts (opts.map bs) {}).toOption.map fun o => (specLive (fun _ => none) (some val) o items).toOption
 
-/-- `ZADD z 1 a 2 b`, `SORT z BY nosort` replies `b a`, with or without DESC (Redis: `a b`, and `b a` with DESC) -/
-theorem nosort_zset_is_descending :
-    let z : ZSet := ((ZSet.empty.add (bs "a") (Dbl.ofInt 1)).1.add (bs "b") (Dbl.ofInt 2)).1
-    (parseSortOpts [bs "BY", bs "nosort"] {}).toOption.map
-      (fun o => (specLive (fun _ => none) (some (.zset z)) o (z.byscore.map Prod.snd)).toOption) =
-      some (some [some (bs "b"), some (bs "a")]) ∧
-    (parseSortOpts [bs "BY", bs "nosort", bs "DESC"] {}).toOption.map
-      (fun o => (specLive (fun _ => none) (some (.zset z)) o (z.byscore.map Prod.snd)).toOption) =
-      some (some [some (bs "b"), some (bs "a")]) := by
-  decide +kernel
+/-- `RPUSH l a b c`: `SORT l BY nosort` replies `a b c`, with DESC `c b a`; LIMIT applies to that sequence:
+`… LIMIT 0 2` replies `a b`, `… DESC LIMIT 0 2` replies `c b` -/
+theorem nosort_list_keeps_order (l : List Bytes) (hl : l = [bs "a", bs "b", bs "c"]) :
+    runOn (.list l) l ["BY", "nosort"] = some (some [some (bs "a"), some (bs "b"), some (bs "c")]) ∧
+    runOn (.list l) l ["BY", "nosort", "DESC"] = some (some [some (bs "c"), some (bs "b"), some (bs "a")]) ∧
+    runOn (.list l) l ["BY", "nosort", "LIMIT", "0", "2"] = some (some [some (bs "a"), some (bs "b")]) ∧
+    runOn (.list l) l ["BY", "nosort", "DESC", "LIMIT", "0", "2"] = some (some [some (bs "c"), some (bs "b")]) := by
+  subst hl
+  exact ⟨by decide +kernel, by decide +kernel, by decide +kernel, by decide +kernel⟩
 
-/-- `BY nosort BY w_*` does not sort (the first BY switched sorting off for good); Redis uses the last BY -/
-theorem by_nosort_is_sticky :
+/-- `ZADD z 1 a 2 b`: `SORT z BY nosort` replies `a b` (ascending score), with DESC `b a` -/
+theorem nosort_zset_ascending (z : ZSet)
+    (hz : z = ((ZSet.empty.add (bs "b") (Dbl.ofInt 2)).1.add (bs "a") (Dbl.ofInt 1)).1) :
+    runOn (.zset z) (z.byscore.map Prod.snd) ["BY", "nosort"] = some (some [some (bs "a"), some (bs "b")]) ∧
+    runOn (.zset z) (z.byscore.map Prod.snd) ["BY", "nosort", "DESC"] = some (some [some (bs "b"), some (bs "a")]) := by
+  subst hz; decide +kernel
+
+/-- a SET under `BY nosort` keeps the hinted iteration order, DESC or not -/
+theorem nosort_set_keeps_hint (m hint : List Bytes) (hm : m = [bs "b", bs "a", bs "c"])
+    (hh : hint = [bs "c", bs "a", bs "b"]) :
+    runOn (.set m) hint ["BY", "nosort"] = some (some [some (bs "c"), some (bs "a"), some (bs "b")]) ∧
+    runOn (.set m) hint ["BY", "nosort", "DESC"] = some (some [some (bs "c"), some (bs "a"), some (bs "b")]) := by
+  subst hm; subst hh; decide +kernel
+
+/-- `BY nosort BY w_*` sorts by `w_*`, `BY w_* BY nosort` does not sort: the last BY decides (instances of
+`last_by_decides`) -/
+theorem last_by_decides_examples :
     (parseSortOpts [bs "BY", bs "nosort", bs "BY", bs "w_*"] {}).toOption.map (fun o => (o.dontsort, o.sortby)) =
-      some (true, some (bs "w_*")) := by
+      some (false, some (bs "w_*")) ∧
+    (parseSortOpts [bs "BY", bs "w_*", bs "BY", bs "nosort"] {}).toOption.map (fun o => (o.dontsort, o.sortby)) =
+      some (true, some (bs "nosort")) ∧
+    runOn (.list [bs "2", bs "3", bs "1"]) [bs "2", bs "3", bs "1"] ["BY", "nosort", "BY", "w_*"] =
+      some (some [some (bs "1"), some (bs "2"), some (bs "3")]) := by
   decide +kernel
 
 /-! ## Non-vacuity witnesses -/
@@ -540,10 +564,16 @@ example : run "l" [] ["LIMIT", "1", "1"] = some [some (bs "2")] ∧
     run "l" [] ["LIMIT", "1", "-1"] = some [some (bs "2"), some (bs "3")] ∧
     run "l" [] ["LIMIT", "3", "5"] = some [] ∧
     run "l" [] ["LIMIT", "-7", "2"] = some [some (bs "1"), some (bs "2")] := by decide +kernel
--- §4 BY nosort: the list reversed, the set in hinted order, the sorted set descending
-example : run "l" [] ["BY", "nosort"] = some [some (bs "2"), some (bs "1"), some (bs "3")] ∧
+-- §4 BY nosort: the list in list order (reversed with DESC), the set in hinted order, the sorted set ascending
+example : run "l" [] ["BY", "nosort"] = some [some (bs "3"), some (bs "1"), some (bs "2")] ∧
+    run "l" [] ["BY", "nosort", "DESC"] = some [some (bs "2"), some (bs "1"), some (bs "3")] ∧
     run "s" ["c", "a", "b"] ["BY", "nosort"] = some [some (bs "c"), some (bs "a"), some (bs "b")] ∧
-    run "z" [] ["BY", "nosort"] = some [some (bs "y"), some (bs "x")] := by decide +kernel
+    run "z" [] ["BY", "nosort"] = some [some (bs "x"), some (bs "y")] ∧
+    run "z" [] ["BY", "nosort", "DESC"] = some [some (bs "y"), some (bs "x")] := by decide +kernel
+-- the last BY decides: hypotheses of `last_by_decides` for `DESC BY nosort BY w_* ALPHA`
+example : (List.foldl Opt.apply {} ([Opt.desc] ++ Opt.sortBy (bs "w_*") :: [Opt.alpha])).dontsort = false := by
+  have := (last_by_decides [.desc] [.alpha] (bs "w_*") (by decide) {}).2.1
+  rw [this]; decide +kernel
 example : patKey (bs "h_*->f") (bs "1") = some (bs "h_1", some (bs "f")) ∧
     patKey (bs "w_*") (bs "1") = some (bs "w_1", none) ∧ patKey (bs "nosort") (bs "1") = none ∧
     patKey (bs "h_*->") (bs "1") = some (bs "h_1->", none) := by decide +kernel
